@@ -361,6 +361,15 @@ func fuzzStep(m *fw.Merged, target, quick, thorough string) {
 	}
 	m.Extra["coverage_guided_fuzz"] = map[string]any{"target": target, "budget": execs, "executions": lastExecs, "interesting_inputs_in_corpus": interesting}
 	m.Counts["fuzz_executions"] = lastExecs
+	if err != nil && !strings.Contains(text, "--- FAIL: "+target) && !strings.Contains(text, "panic: ") && !strings.Contains(text, "fatal error: ") {
+		// the target did not fail on an input: the fuzz run itself could not be made (build or setup failure):
+		// neither held nor violated
+		if len(text) > 1500 {
+			text = text[len(text)-1500:]
+		}
+		m.Inconclusive = append(m.Inconclusive, "coverage-guided fuzz run of "+target+" could not be made: "+err.Error()+": "+text)
+		err = nil
+	}
 	if err != nil {
 		input := "(see detail)"
 		if files, _ := filepath.Glob(filepath.Join(crashDir, "*")); len(files) > 0 {
